@@ -108,36 +108,42 @@ ENOBUFS = 105
 
 def m_ksock(pre, ev, post):
     """fault enumeration: re-execute the transition once per netlink request (NEWSA or DELSA) with the netlink socket
-    itself failing (OSError ENOBUFS: the request never reaches the kernel).  The daemon survives it, and once it has had
-    its next timer sweep and everything has settled, kernel and tracking agree again."""
+    itself failing (OSError ENOBUFS), in two ways: the request never reaches the kernel ('send'), or it does and is carried
+    out but reading the answer fails ('recv': the answer stays queued on that socket, and whatever the daemon asks next is
+    a request of its own).  The daemon survives it, and once it has had its next timer sweep and everything has settled,
+    kernel and tracking agree again."""
     for name in sorted(post.endpoints):
         ep_pre, ep_post = pre.endpoints[name], post.endpoints[name]
         new_reqs = ep_post.kernel.log[len(ep_pre.kernel.log):]
         for j, r in enumerate(new_reqs):
             if not r[1] or r[1]['type'] not in (K.XFRM_MSG_NEWSA, K.XFRM_MSG_DELSA):
                 continue
-            w = pre.fork()
-            w.endpoints[name].kernel.sock_fail_next(j, ENOBUFS)
-            w.history.append(('ksockfail', name, j, ENOBUFS))
-            P.apply_event(w, ev)
-            C.COVER['ksock-reexecutions'] += 1
-            lab = '%s#%d:%s' % (r[1]['name'].lower(), j, P.ev_label(pre, ev))
-            e2 = w.endpoints[name]
-            if not e2.alive:
-                yield ('M-exc', 'ksock-escape:%s:%s' % (e2.dead_reason[0], lab),
-                       'netlink socket failure at %s let %s escape main_loop of %s' % (lab, e2.dead_reason[0], name))
-                continue
-            w.step(('tick', 1.5))
-            w.history.append(('tick', 1.5))
-            w2, status = P.drain(w)
-            for n2, e3 in w2.endpoints.items():
-                if e3.alive:
-                    o2, m2 = P.sad_diff(e3)
-                    if o2 or m2:
-                        yield ('M-sad', 'ksock-drain:orphan=%d:missing=%d:%s' % (len(o2), len(m2), lab),
-                               '%s after a netlink socket failure at %s, a timer sweep and drain: untracked=%s absent=%s' % (
-                                   n2, lab, sorted((a, p, s.hex()) for a, p, s in o2),
-                                   sorted((a, p, s.hex()) for a, p, s in m2)), w2.history)
+            for how in ('send', 'recv'):
+                w = pre.fork()
+                if how == 'send':
+                    w.endpoints[name].kernel.sock_fail_next(j, ENOBUFS)
+                    w.history.append(('ksockfail', name, j, ENOBUFS))
+                else:
+                    w.step(('krecvfail', name, j, ENOBUFS))
+                P.apply_event(w, ev)
+                C.COVER['ksock-reexecutions'] += 1
+                lab = '%s%s#%d:%s' % (r[1]['name'].lower(), '' if how == 'send' else '-answer-unread', j, P.ev_label(pre, ev))
+                e2 = w.endpoints[name]
+                if not e2.alive:
+                    yield ('M-exc', 'ksock-escape:%s:%s' % (e2.dead_reason[0], lab),
+                           'netlink socket failure at %s let %s escape main_loop of %s' % (lab, e2.dead_reason[0], name))
+                    continue
+                w.step(('tick', 1.5))
+                w.history.append(('tick', 1.5))
+                w2, status = P.drain(w)
+                for n2, e3 in w2.endpoints.items():
+                    if e3.alive:
+                        o2, m2 = P.sad_diff(e3)
+                        if o2 or m2:
+                            yield ('M-sad', 'ksock-drain:orphan=%d:missing=%d:%s' % (len(o2), len(m2), lab),
+                                   '%s after a netlink socket failure at %s, a timer sweep and drain: untracked=%s absent=%s' % (
+                                       n2, lab, sorted((a, p, s.hex()) for a, p, s in o2),
+                                       sorted((a, p, s.hex()) for a, p, s in m2)), w2.history)
 
 
 def m_sendfail(pre, ev, post):
@@ -378,6 +384,39 @@ def giveup_faults():
     return n, out
 
 
+def recv_failure_then_refusal():
+    """two faults, one after the other, in one daemon: the answer to one netlink request cannot be read (it is carried out
+    all the same), and a later request - of another negotiation, of another IKE_SA - is refused by the kernel.  After each
+    negotiation has settled, kernel and tracking agree."""
+    out, n = [], 0
+    for first in ('A', 'B'):
+        for i in range(4):
+            for j in range(4):
+                n += 1
+                w = C.build(dict(config='match', budget=dict(trig=0, fault=0)))
+                lab = 'recv-failure-then-refusal:%s:unread#%d:refused#%d' % (first, i, j)
+                w.step(('krecvfail', first, i, ENOBUFS))
+                w.step(('acquire', 'A', 0, 0))
+                w2, _ = P.drain(w)
+                w2.step(('tick', 1.5))
+                w2, _ = P.drain(w2)
+                w2.step(('kfail', first, j, K.ENOMEM))
+                w2.step(('acquire', 'B', 0, 0))
+                w3, _ = P.drain(w2)
+                w3.step(('tick', 1.5))
+                w3, _ = P.drain(w3)
+                for name, e in sorted(w3.endpoints.items()):
+                    if not e.alive:
+                        out.append(('M-exc', 'two-faults-escape:%s' % e.dead_reason[0], '%s: %s left main_loop of %s' % (lab, e.dead_reason[0], name), lab))
+                        continue
+                    o, m = P.sad_diff(e)
+                    if o or m:
+                        out.append(('M-sad', 'two-faults:orphan=%d:missing=%d' % (len(o), len(m)),
+                                    '%s: %s untracked=%s absent=%s' % (lab, name, sorted((a, p_, x.hex()) for a, p_, x in o),
+                                                                      sorted((a, p_, x.hex()) for a, p_, x in m)), lab))
+    return n, out
+
+
 def run_foreign(i):
     ex = C.explore(FOREIGN_SCENARIOS[i], [], [sm_foreign], quick=ck.quick, max_states=None if ck.quick else 200000,
                    jobs=0 if ck.quick else ck.jobs)
@@ -387,7 +426,7 @@ def run_foreign(i):
 def replay(path):
     doc = jdec(json.load(open(path)))
     if doc['scenario'].get('giveup'):
-        res = [x for x in giveup_faults()[1] if x[3] == doc['scenario']['giveup']]
+        res = [x for x in giveup_faults()[1] + recv_failure_then_refusal()[1] if x[3] == doc['scenario']['giveup']]
         for r in res:
             print('reproduced:', r[0], r[1], r[2])
         print('REPLAY %s' % ('reproduces a violation' if res else 'does not reproduce'))
@@ -414,7 +453,24 @@ def main():
         replay(ck.args.replay)
     stats, samples = [], []
     cover = collections.Counter()
-    for sc, sm in zip(SCEN, (ck.pmap(run, range(len(SCEN))) if ck.quick else map(run, range(len(SCEN))))):
+    # the linear fault cases first: a change that keeps state on classes or modules makes the worlds of a search influence
+    # each other, which the search reports as a harness error (replays diverge) - these cases still give their verdict then
+    n_giveup, gv = giveup_faults()
+    n_two, gv2 = recv_failure_then_refusal()
+    n_giveup += n_two
+    gv = list(gv) + gv2
+    for mon, sig, msg, lab in gv:
+        ck.violation('%s:%s' % (mon, sig), msg, dict(scenario=dict(giveup=lab), history=[]))
+    cover['giveup-fault-reexecutions'] = n_giveup
+    try:
+        explored = list(zip(SCEN, (ck.pmap(run, range(len(SCEN))) if ck.quick else map(run, range(len(SCEN))))))
+    except HarnessError as ex:
+        if not ck.violations:
+            raise
+        print('  the explorations stopped with a harness error (%s); reporting what the linear cases found' % str(ex)[:200])
+        ck.coverage.update(exhaustive=False, caps_hit=['explorations aborted: harness error'])
+        ck.finish()
+    for sc, sm in explored:
         ck.add_explorer_violations(sm, sc)
         samples += sm['samples'][:1]
         stats.append({k: v for k, v in sm.items() if k not in ('violation_list', 'samples')})
@@ -429,10 +485,6 @@ def main():
         cover.update(sm.get('cover', {}))
         print('  foreign-peer scenario', {k: v for k, v in fstats[-1].items() if k != 'cover'})
     stats += fstats
-    n_giveup, gv = giveup_faults()
-    for mon, sig, msg, lab in gv:
-        ck.violation('%s:%s' % (mon, sig), msg, dict(scenario=dict(giveup=lab), history=[]))
-    cover['giveup-fault-reexecutions'] = n_giveup
     m = merge_stats(stats)
     ck.coverage.update(states=m['states'], transitions=m['transitions'] + cover['kfault-reexecutions'],
                        max_depth=m['max_depth'], traces_validated_against_impl=m['replays_validated'],
